@@ -28,54 +28,7 @@ OPS_FULL = ("a", "b", "c", "a.b", "x-1", "k=v", "a*", "?b", "[ab]c", "*.b")
 OPS_4 = ("a", "b", "x-1", "a*")
 
 
-# ---- independent reference: glob match + evaluator -------------------------
-def glob_match(pat, s):
-    """hand-written case-sensitive glob (*, ?, [set]); no fnmatch involved"""
-    def m(i, j):
-        while i < len(pat):
-            ch = pat[i]
-            if ch == "*":
-                return any(m(i + 1, k) for k in range(j, len(s) + 1))
-            if j >= len(s):
-                return False
-            if ch == "?":
-                pass
-            elif ch == "[":
-                end = pat.find("]", i + 1)
-                if end < 0:
-                    if s[j] != "[":
-                        return False
-                else:
-                    if s[j] not in pat[i + 1:end]:
-                        return False
-                    i = end
-            elif ch != s[j]:
-                return False
-            i += 1
-            j += 1
-        return j == len(s)
-    return m(0, 0)
-
-
-def is_wild(op):
-    return any(c in op for c in "*?[")
-
-
-def ref_eval(ast, tags):
-    k = ast[0]
-    if k == "lit":
-        if is_wild(ast[1]):
-            return any(glob_match(ast[1], t) for t in tags)
-        return ast[1] in tags
-    if k == "not":
-        return not ref_eval(ast[1], tags)
-    if k == "and":
-        return ref_eval(ast[1], tags) and ref_eval(ast[2], tags)
-    if k == "or":
-        return ref_eval(ast[1], tags) or ref_eval(ast[2], tags)
-    if k == "true":
-        return True
-    raise ValueError(ast)
+from vlib.ref_tags import glob_match, is_wild, ref_eval   # noqa: re-exported
 
 
 _FULL = (1 << 256) - 1
